@@ -22,7 +22,8 @@ theorem step_of_ok {s : State} (op : Op) (h : s.err = none) :
       | .loadExternal n a => loadExternal s n a
       | .setRedef b => { s with redefOk := b }
       | .link i r => link s i r
-      | .call => callAll s := by
+      | .call => callAll s
+      | .reload k => reloadModule s k := by
   cases op <;> simp [step, fatal_of_err_none h]
 
 theorem runFrom_of_fatal {s : State} (h : List Op) (he : s.fatal = true) : runFrom s h = s := by
@@ -63,6 +64,18 @@ theorem err_some_step {s : State} (op : Op) (h : s.err.isSome = true) :
       split
       · exact h
       · rfl
+    | reload k =>
+      simp only [reloadModule]
+      split
+      · exact h
+      · split
+        · rfl
+        · split
+          · rfl
+          · simp only [requeue]
+            split
+            · exact h
+            · split <;> exact h
 
 theorem err_none_of_step {s : State} {op : Op} (h : (step s op).err = none) : s.err = none := by
   cases he : s.err with
@@ -115,7 +128,9 @@ theorem load_env {id : Nat} {ds : List Decl} {b : Build} {ok : Bool} {env env' :
 theorem loadModule_ok {s : State} {id : Nat} {ds : List Decl} (h : (loadModule s id ds).err = none)
     (hs : s.err = none) :
     ∃ b env', build ds = .ok b ∧ loadDefs id s.redefOk b b.defs s.env = (env', none) ∧
-      loadModule s id ds = { s with env := env', queue := s.queue ++ [{ id := id, imps := b.imps }] } := by
+      loadModule s id ds = { s with env := env',
+                                    queue := s.queue ++ [{ id := id, imps := b.imps, uid := s.loaded.length }],
+                                    loaded := s.loaded ++ [(id, ds)] } := by
   unfold loadModule at h ⊢
   cases hb : build ds with
   | error e => rw [hb] at h; simp at h
@@ -149,7 +164,8 @@ theorem inv_load {s : State} {r : List Op} {id : Nat} {ds : List Decl} (hinv : I
       · rw [List.mem_singleton] at hm; subst hm; exact Or.inr hn
     · rintro (⟨m, hm, hn⟩ | hn)
       · exact ⟨m, List.mem_append_left _ hm, hn⟩
-      · exact ⟨{ id := id, imps := b.imps }, List.mem_append_right _ (List.mem_singleton.2 rfl), hn⟩
+      · exact ⟨{ id := id, imps := b.imps, uid := s.loaded.length },
+          List.mem_append_right _ (List.mem_singleton.2 rfl), hn⟩
 
 /-! ### link -/
 
@@ -284,8 +300,196 @@ theorem callAll_fields (s : State) :
   simp only
   split <;> simp
 
-theorem inv_step {s : State} {r : List Op} {op : Op} (hinv : Inv s r) (hs : s.err = none)
-    (h : (step s op).err = none) : Inv (step s op) (op :: r) := by
+theorem callAll_done (s : State) : (callAll s).done = s.done.map (codeMod s.env) := by
+  unfold callAll
+  simp only
+  split <;> rfl
+
+theorem callAll_loaded (s : State) : (callAll s).loaded = s.loaded := by
+  unfold callAll
+  simp only
+  split <;> rfl
+
+theorem codeMod_keys (env : Env) (m : Mod) :
+    (codeMod env m).uid = m.uid ∧ (codeMod env m).id = m.id ∧ (codeMod env m).imps = m.imps := by
+  unfold codeMod
+  split
+  · exact ⟨rfl, rfl, rfl⟩
+  · split <;> exact ⟨rfl, rfl, rfl⟩
+
+/-! ### the registry of module objects and `reload` -/
+
+/-- every module record belongs to an entry of the registry, which is the list of loads of the history -/
+structure Reg (s : State) (r : List Op) : Prop where
+  loaded : s.loaded = loadsR r
+  recs : ∀ m ∈ s.queue ++ s.done, ∃ ds, s.loaded[m.uid]? = some (m.id, ds) ∧
+            ∀ n, n ∈ m.importNames ↔ n ∈ declImports ds
+
+/-- same registry entry and same imports -/
+def sameKeys (m m' : Mod) : Prop := m'.uid = m.uid ∧ m'.id = m.id ∧ m'.imps = m.imps
+
+theorem recs_of_sameKeys {loaded : List (Nat × List Decl)} {old new : List Mod}
+    (h : ∀ m' ∈ new, ∃ m ∈ old, sameKeys m m')
+    (hold : ∀ m ∈ old, ∃ ds, loaded[m.uid]? = some (m.id, ds) ∧
+              ∀ n, n ∈ m.importNames ↔ n ∈ declImports ds) :
+    ∀ m' ∈ new, ∃ ds, loaded[m'.uid]? = some (m'.id, ds) ∧
+      ∀ n, n ∈ m'.importNames ↔ n ∈ declImports ds := by
+  intro m' hm'
+  obtain ⟨m, hm, hu, hi, himps⟩ := h m' hm'
+  obtain ⟨ds, hl, hn⟩ := hold m hm
+  refine ⟨ds, by rw [hu, hi]; exact hl, ?_⟩
+  intro n
+  have : m'.importNames = m.importNames := by unfold Mod.importNames; rw [himps]
+  rw [this]; exact hn n
+
+inductive ReloadOutcome (s : State) (k : Nat) : Prop
+  | absent (h : s.loaded[k]? = none) (heq : reloadModule s k = s)
+  | ok (id : Nat) (ds : List Decl) (b : Build) (env' : Env) (hl : s.loaded[k]? = some (id, ds))
+      (hb : build ds = .ok b) (hd : loadDefs id s.redefOk b b.defs s.env = (env', none))
+      (heq : reloadModule s k = requeue { s with env := env' } k { id := id, imps := b.imps, uid := k })
+
+theorem requeue_err (s : State) (k : Nat) (fresh : Mod) : (requeue s k fresh).err = s.err := by
+  unfold requeue
+  split
+  · rfl
+  · split <;> rfl
+
+theorem reloadModule_ok {s : State} {k : Nat} (h : (reloadModule s k).err = none) :
+    ReloadOutcome s k := by
+  unfold reloadModule at h
+  cases hl : s.loaded[k]? with
+  | none => exact .absent hl (by unfold reloadModule; rw [hl])
+  | some p =>
+    obtain ⟨id, ds⟩ := p
+    rw [hl] at h
+    simp only at h
+    cases hb : build ds with
+    | error e => rw [hb] at h; simp at h
+    | ok b =>
+      rw [hb] at h
+      simp only at h
+      generalize hd : loadDefs id s.redefOk b b.defs s.env = r at h
+      obtain ⟨env', e⟩ := r
+      cases e with
+      | some e => simp at h
+      | none =>
+        refine .ok id ds b env' hl hb hd ?_
+        unfold reloadModule
+        rw [hl]; simp only; rw [hb]; simp only; rw [hd]
+
+theorem requeue_fields (s : State) (k : Nat) (fresh : Mod) :
+    (requeue s k fresh).env = s.env ∧ (requeue s k fresh).redefOk = s.redefOk ∧
+    (requeue s k fresh).loaded = s.loaded := by
+  unfold requeue
+  split
+  · exact ⟨rfl, rfl, rfl⟩
+  · split <;> exact ⟨rfl, rfl, rfl⟩
+
+/-- the three ways `requeue` can go, as far as membership is concerned -/
+theorem requeue_cases (s : State) (k : Nat) (fresh : Mod) :
+    ((∃ m ∈ s.queue, m.uid = k) ∧ (requeue s k fresh).queue = s.queue ∧ (requeue s k fresh).done = s.done) ∨
+    (∃ m ∈ s.done, m.uid = k ∧ (requeue s k fresh).queue = s.queue ++ [{ m with iface := none }] ∧
+        (requeue s k fresh).done = s.done.filter (·.uid != k)) ∨
+    ((requeue s k fresh).queue = s.queue ++ [fresh] ∧ (requeue s k fresh).done = s.done) := by
+  unfold requeue
+  by_cases hq : s.queue.any (·.uid == k) = true
+  · left
+    rw [if_pos hq]
+    obtain ⟨m, hm, hk⟩ := List.any_eq_true.1 hq
+    exact ⟨⟨m, hm, by simpa using hk⟩, rfl, rfl⟩
+  · right
+    rw [if_neg hq]
+    cases hf : s.done.find? (·.uid == k) with
+    | none => right; exact ⟨rfl, rfl⟩
+    | some m =>
+      left
+      have hm := List.mem_of_find?_eq_some hf
+      have hk := List.find?_some hf
+      exact ⟨m, hm, by simpa using hk, rfl, rfl⟩
+
+theorem inv_reload {s : State} {r : List Op} {k : Nat} (hinv : Inv s r) (hreg : Reg s r)
+    (h : (reloadModule s k).err = none) : Inv (reloadModule s k) (.reload k :: r) := by
+  have hlr : (loadsR r)[k]? = s.loaded[k]? := by rw [hreg.loaded]
+  have hpend0 : ∀ n, n ∈ pendingR (.reload k :: r) ↔
+      (n ∈ pendingR r ∨ ∃ id ds, (loadsR r)[k]? = some (id, ds) ∧ n ∈ declImports ds) := by
+    intro n
+    simp only [pendingR, pendingModsR]
+    cases hx : (loadsR r)[k]? with
+    | none => simp
+    | some p =>
+      obtain ⟨id, ds⟩ := p
+      simp only [List.flatMap_append, List.flatMap_cons, List.flatMap_nil, List.append_nil,
+        List.mem_append, Option.some.injEq, Prod.mk.injEq]
+      constructor
+      · rintro (h1 | h1)
+        · exact Or.inl h1
+        · exact Or.inr ⟨id, ds, ⟨rfl, rfl⟩, h1⟩
+      · rintro (h1 | ⟨_, _, ⟨rfl, rfl⟩, h1⟩)
+        · exact Or.inl h1
+        · exact Or.inr h1
+  cases reloadModule_ok h with
+  | absent hl heq =>
+    rw [heq]
+    refine ⟨?_, ?_, hinv.redef⟩
+    · intro n; simp only [lastDefR, hlr, hl]; exact hinv.env n
+    · intro n; rw [hpend0 n, hlr, hl]; simpa using hinv.pend n
+  | ok id ds b env' hl hb hd heq =>
+    rw [heq]
+    obtain ⟨hE, hR, hL⟩ := requeue_fields { s with env := env' } k { id := id, imps := b.imps, uid := k }
+    refine ⟨?_, ?_, by rw [hR]; exact hinv.redef⟩
+    · intro n
+      rw [hE]
+      simp only [lastDefR, hlr, hl]
+      rw [load_env hb hd n, hinv.env n]
+      cases declExport id ds n <;> rfl
+    · intro n
+      rw [hpend0 n, hlr, hl]
+      have himp := (build_spec hb).2.2 n
+      have hrec : ∀ m ∈ s.queue ++ s.done, m.uid = k → (n ∈ m.importNames ↔ n ∈ declImports ds) := by
+        intro m hm hk
+        obtain ⟨ds0, h0, hn0⟩ := hreg.recs m hm
+        rw [hk, hl] at h0
+        cases h0
+        exact hn0 n
+      have hsimp : (∃ id' ds', some (id, ds) = some (id', ds') ∧ n ∈ declImports ds') ↔
+          n ∈ declImports ds := by
+        constructor
+        · rintro ⟨_, _, he, hn⟩; cases he; exact hn
+        · intro hn; exact ⟨id, ds, rfl, hn⟩
+      rw [hsimp, ← hinv.pend n]
+      rcases requeue_cases { s with env := env' } k { id := id, imps := b.imps, uid := k } with
+        ⟨⟨m, hm, hk⟩, hq, _⟩ | ⟨m, hm, hk, hq, _⟩ | ⟨hq, _⟩
+      · rw [hq]
+        constructor
+        · exact Or.inl
+        · rintro (h1 | h1)
+          · exact h1
+          · exact ⟨m, hm, (hrec m (List.mem_append_left _ hm) hk).2 h1⟩
+      · rw [hq]
+        have hm' := hrec m (List.mem_append_right _ hm) hk
+        constructor
+        · rintro ⟨m1, hm1, hn1⟩
+          rcases List.mem_append.1 hm1 with h2 | h2
+          · exact Or.inl ⟨m1, h2, hn1⟩
+          · rw [List.mem_singleton] at h2; subst h2
+            exact Or.inr (hm'.1 hn1)
+        · rintro (⟨m1, hm1, hn1⟩ | h1)
+          · exact ⟨m1, List.mem_append_left _ hm1, hn1⟩
+          · exact ⟨{ m with iface := none }, List.mem_append_right _ (List.mem_singleton.2 rfl),
+              hm'.2 h1⟩
+      · rw [hq]
+        constructor
+        · rintro ⟨m1, hm1, hn1⟩
+          rcases List.mem_append.1 hm1 with h2 | h2
+          · exact Or.inl ⟨m1, h2, hn1⟩
+          · rw [List.mem_singleton] at h2; subst h2
+            exact Or.inr (himp.1 hn1)
+        · rintro (⟨m1, hm1, hn1⟩ | h1)
+          · exact ⟨m1, List.mem_append_left _ hm1, hn1⟩
+          · exact ⟨_, List.mem_append_right _ (List.mem_singleton.2 rfl), himp.2 h1⟩
+
+theorem inv_step {s : State} {r : List Op} {op : Op} (hinv : Inv s r) (hreg : Reg s r)
+    (hs : s.err = none) (h : (step s op).err = none) : Inv (step s op) (op :: r) := by
   rw [step_of_ok op hs] at h ⊢
   cases op with
   | loadModule id ds => exact inv_load hinv hs h
@@ -315,26 +519,138 @@ theorem inv_step {s : State} {r : List Op} {op : Op} (hinv : Inv s r) (hs : s.er
       have : pendingR (.call :: r) = pendingR r := by simp [pendingR, pendingModsR]
       rw [this, h2]; exact hinv.pend m
     · simp only [redefOkR]; rw [h3]; exact hinv.redef
+  | reload k => exact inv_reload hinv hreg h
+
+theorem getElem?_append_of_some {α} {l : List α} {i : Nat} {x : α} (h : l[i]? = some x) (t : List α) :
+    (l ++ t)[i]? = some x := by
+  rw [List.getElem?_append_left (List.getElem?_eq_some_iff.1 h).1]; exact h
+
+theorem reg_step {s : State} {r : List Op} {op : Op} (hreg : Reg s r) (hs : s.err = none)
+    (h : (step s op).err = none) : Reg (step s op) (op :: r) := by
+  rw [step_of_ok op hs] at h ⊢
+  cases op with
+  | loadModule id ds =>
+    obtain ⟨b, env', hb, hl, heq⟩ := loadModule_ok h hs
+    change Reg (loadModule s id ds) _
+    rw [heq]
+    refine ⟨by simp only [loadsR]; rw [hreg.loaded], ?_⟩
+    intro m hm
+    simp only at hm ⊢
+    rcases List.mem_append.1 hm with hm | hm
+    · rcases List.mem_append.1 hm with hm | hm
+      · obtain ⟨ds0, h0, hn0⟩ := hreg.recs m (List.mem_append_left _ hm)
+        exact ⟨ds0, getElem?_append_of_some h0 _, hn0⟩
+      · rw [List.mem_singleton] at hm; subst hm
+        refine ⟨ds, by simp, ?_⟩
+        exact (build_spec hb).2.2
+    · obtain ⟨ds0, h0, hn0⟩ := hreg.recs m (List.mem_append_right _ hm)
+      exact ⟨ds0, getElem?_append_of_some h0 _, hn0⟩
+  | loadExternal n a => exact ⟨hreg.loaded, hreg.recs⟩
+  | setRedef b => exact ⟨hreg.loaded, hreg.recs⟩
+  | link ifc res =>
+    change (link s ifc res).err = none at h
+    change Reg (link s ifc res) _
+    obtain ⟨env', q', hr, heq⟩ := link_ok h hs
+    have hf := (resolveQueue_ok hr).2
+    rw [heq]
+    have hq' : ∀ m' ∈ q', ∃ m ∈ s.queue, sameKeys m m' := by
+      intro m' hm'
+      obtain ⟨m, hm, hb⟩ := hf.right m' hm'
+      exact ⟨m, hm, by rw [hb.1]; exact ⟨rfl, rfl, rfl⟩⟩
+    refine ⟨?_, ?_⟩
+    · cases ifc <;> exact hreg.loaded
+    · have hloaded : (linkResult s ifc env' q').loaded = s.loaded := by cases ifc <;> rfl
+      rw [hloaded]
+      refine recs_of_sameKeys (old := s.queue ++ s.done) ?_ hreg.recs
+      intro m'' hm''
+      cases ifc with
+      | none =>
+        simp only [linkResult] at hm''
+        rcases List.mem_append.1 hm'' with h1 | h1
+        · obtain ⟨m', hm', rfl⟩ := List.mem_map.1 h1
+          obtain ⟨m, hm, hk⟩ := hq' m' hm'
+          exact ⟨m, List.mem_append_left _ hm, hk⟩
+        · exact ⟨m'', List.mem_append_right _ h1, rfl, rfl, rfl⟩
+      | some i =>
+        simp only [linkResult, List.nil_append] at hm''
+        rcases List.mem_append.1 hm'' with h1 | h1
+        · exact ⟨m'', List.mem_append_right _ h1, rfl, rfl, rfl⟩
+        · obtain ⟨m1, hm1, rfl⟩ := List.mem_map.1 h1
+          obtain ⟨m', hm', rfl⟩ := List.mem_map.1 hm1
+          obtain ⟨m, hm, hk⟩ := hq' m' hm'
+          exact ⟨m, List.mem_append_left _ hm, hk⟩
+  | call =>
+    change Reg (callAll s) _
+    obtain ⟨_, h2, _⟩ := callAll_fields s
+    refine ⟨by rw [callAll_loaded]; exact hreg.loaded, ?_⟩
+    rw [callAll_loaded, h2, callAll_done]
+    refine recs_of_sameKeys (old := s.queue ++ s.done) ?_ hreg.recs
+    intro m' hm'
+    rcases List.mem_append.1 hm' with h1 | h1
+    · exact ⟨m', List.mem_append_left _ h1, rfl, rfl, rfl⟩
+    · obtain ⟨m, hm, rfl⟩ := List.mem_map.1 h1
+      exact ⟨m, List.mem_append_right _ hm, codeMod_keys s.env m⟩
+  | reload k =>
+    change (reloadModule s k).err = none at h
+    change Reg (reloadModule s k) _
+    cases reloadModule_ok h with
+    | absent hl heq => rw [heq]; exact ⟨hreg.loaded, hreg.recs⟩
+    | ok id ds b env' hl hb hd heq =>
+      rw [heq]
+      obtain ⟨_, _, hL⟩ := requeue_fields { s with env := env' } k { id := id, imps := b.imps, uid := k }
+      refine ⟨by rw [hL]; exact hreg.loaded, ?_⟩
+      rw [hL]
+      intro m' hm'
+      have hfresh : ∃ ds0, s.loaded[k]? = some (id, ds0) ∧
+          ∀ n, n ∈ (b.imps.map (·.1)) ↔ n ∈ declImports ds0 := ⟨ds, hl, (build_spec hb).2.2⟩
+      rcases requeue_cases { s with env := env' } k { id := id, imps := b.imps, uid := k } with
+        ⟨_, hq, hdn⟩ | ⟨m, hm, hk, hq, hdn⟩ | ⟨hq, hdn⟩
+      · rw [hq, hdn] at hm'; exact hreg.recs m' hm'
+      · rw [hq, hdn] at hm'
+        rcases List.mem_append.1 hm' with h1 | h1
+        · rcases List.mem_append.1 h1 with h2 | h2
+          · exact hreg.recs m' (List.mem_append_left _ h2)
+          · rw [List.mem_singleton] at h2; subst h2
+            exact hreg.recs m (List.mem_append_right _ hm)
+        · exact hreg.recs m' (List.mem_append_right _ (List.mem_filter.1 h1).1)
+      · rw [hq, hdn] at hm'
+        rcases List.mem_append.1 hm' with h1 | h1
+        · rcases List.mem_append.1 h1 with h2 | h2
+          · exact hreg.recs m' (List.mem_append_left _ h2)
+          · rw [List.mem_singleton] at h2; subst h2
+            exact hfresh
+        · exact hreg.recs m' (List.mem_append_right _ h1)
 
 theorem redefOkR_link (i : Option Iface) (res : Resolver) (r : List Op) :
     redefOkR (.link i res :: r) = redefOkR r := rfl
 
-theorem inv_runFrom {s : State} {r : List Op} (h : List Op) (hinv : s.err = none → Inv s r)
-    (he : (runFrom s h).err = none) : Inv (runFrom s h) (h.reverse ++ r) := by
+theorem inv_runFrom {s : State} {r : List Op} (h : List Op) (hinv : s.err = none → Inv s r ∧ Reg s r)
+    (he : (runFrom s h).err = none) :
+    Inv (runFrom s h) (h.reverse ++ r) ∧ Reg (runFrom s h) (h.reverse ++ r) := by
   induction h generalizing s r with
   | nil => simpa [runFrom] using hinv he
   | cons op t ih =>
     rw [runFrom_cons] at he ⊢
     have hstep : (step s op).err = none := err_none_of_runFrom he
     have hs : s.err = none := err_none_of_step hstep
-    have := ih (s := step s op) (r := op :: r) (fun _ => inv_step (hinv hs) hs hstep) he
+    obtain ⟨hi, hr⟩ := hinv hs
+    have := ih (s := step s op) (r := op :: r)
+      (fun _ => ⟨inv_step hi hr hs hstep, reg_step hr hs hstep⟩) he
     simpa [List.reverse_cons, List.append_assoc] using this
 
 theorem inv_init : Inv init [] := by
   refine ⟨?_, ?_, ?_⟩ <;> simp [init, lastDefR, pendingR, pendingModsR, redefOkR]
 
+theorem reg_init : Reg init [] := by
+  refine ⟨rfl, ?_⟩
+  intro m hm; simp [init] at hm
+
 theorem inv_run {h : List Op} (he : (run h).err = none) : Inv (run h) h.reverse := by
-  have := inv_runFrom (s := init) (r := []) h (fun _ => inv_init) he
+  have := (inv_runFrom (s := init) (r := []) h (fun _ => ⟨inv_init, reg_init⟩) he).1
+  simpa [run] using this
+
+theorem reg_run {h : List Op} (he : (run h).err = none) : Reg (run h) h.reverse := by
+  have := (inv_runFrom (s := init) (r := []) h (fun _ => ⟨inv_init, reg_init⟩) he).2
   simpa [run] using this
 
 theorem run_snoc (h : List Op) (op : Op) : run (h ++ [op]) = step (run h) op := by
